@@ -461,6 +461,25 @@ func hammers(pskLen, reps int) []Case {
 	}
 }
 
+// starves: the mutex-starvation schedule (see runStarve) for add || delete and update || delete behind a long reload.
+func starves(pskLen, trials int) []Case {
+	k := universe(pskLen)
+	var big1 []DocEntry
+	big1 = append(big1, DocEntry{"a", k[0]}, DocEntry{"b", k[1]})
+	for i := 0; i < 480; i++ {
+		big1 = append(big1, DocEntry{fmt.Sprintf("u%03d", i), Key{100 + i, pskLen}})
+	}
+	big2 := append(append([]DocEntry(nil), big1...), DocEntry{"d", k[3]})
+	mk := func(cleanup []string, race ...string) Case {
+		return Case{Kind: "hammer", PSKLen: pskLen, TCP: true, UDP: true, Init: mkDoc(big1),
+			Ops: append([]string{"starve", string(mkDoc(big1)), string(mkDoc(big2))}, cleanup...), Race: race, Reps: trials}
+	}
+	return []Case{
+		mk([]string{"delete c"}, "add c "+k[2].String(), "delete c"),
+		mk([]string{"update a " + k[0].String()}, "update a "+k[2].String(), "update a "+k[0].String()),
+	}
+}
+
 // reloadLoops: LoadFromFile in a loop against add/delete in a loop, for `ms` milliseconds, in `n` processes.
 func reloadLoops(pskLen, n, ms int) []Case {
 	k := universe(pskLen)
@@ -479,7 +498,7 @@ func evalHammers(cases []Case, rep *common.Report, probe bool) {
 	for i, c := range cases {
 		r := results[i]
 		kinds := keyKinds(c.Race)
-		if len(c.Ops) > 0 && c.Ops[0] == "reload-loop" {
+		if len(c.Ops) > 0 && (c.Ops[0] == "reload-loop" || c.Ops[0] == "starve") {
 			kinds += "|reload"
 		}
 		rep.Case("hammer "+c.sig(), true)
@@ -498,8 +517,8 @@ func evalHammers(cases []Case, rep *common.Report, probe bool) {
 		if probe {
 			// the two F7 witnesses
 			// the two F7 witnesses (schedule-dependent: several templates / processes try)
-			for _, pk := range []string{"conc:unlisted-key-accepted:add|delete", "conc:crash:add|delete|reload"} {
-				if kinds == strings.TrimPrefix(strings.TrimPrefix(pk, "conc:unlisted-key-accepted:"), "conc:crash:") {
+			if kinds == "add|delete|reload" {
+				for _, pk := range []string{"conc:unlisted-key-accepted:add|delete|reload", "conc:crash:add|delete|reload"} {
 					rep.FindingsProbed[pk] = rep.FindingsProbed[pk] || key == pk
 				}
 			}
@@ -581,10 +600,10 @@ func parentMain() {
 			err = evalRace(rc, o, rep)
 		}
 		if err == nil && (only == "" || only == "hammer") {
-			reps := o.Budget(8000, 100000)
+			reps := o.Budget(3000, 100000)
 			l := common.Pick(r, []int{16, 32})
 			hs := hammers(l, reps)
-			hs = append(hs, hammers(l, reps)[0]) // the add || delete pair twice
+			hs = append(hs, starves(l, o.Budget(150, 3000))...)
 			hs = append(hs, reloadLoops(l, o.Budget(2, 6), o.Budget(6000, 30000))...)
 			evalHammers(hs, rep, true)
 		}
